@@ -1004,6 +1004,13 @@ where
             }
         }
 
+        // jobs waiting in per-worker queues get the same treatment as the factory queue
+        if state.discard_handler.is_some() {
+            for worker_props in state.pool.values_mut() {
+                worker_props.discard_queued_jobs_on_shutdown();
+            }
+        }
+
         // cleanup the pool and wait for it to exit
         for worker_props in state.pool.values() {
             worker_props.actor.stop(None);
